@@ -2,12 +2,12 @@
    An LRUTrie is a TrieDict keyed by the url's stems with empty path stems removed (lt_key);
    so for every history of set / set_lru calls (given by their stem lists), match / match_lru
    is the dictionary's longest-prefix lookup (C10), the latest value wins, and len / iteration
-   report each stored key once.  PARTIAL: that two urls with the same canonical / normalized /
-   fingerprinted string are the same key in the variant tries is checked by the harness on the
-   implementation, not proved. *)
+   report each stored key once.  The variant tries: two urls with the same parsed canonical / normalized /
+   fingerprinted form are the same key (the last four theorems); that the tries behave as the same dictionary
+   over those keys is checked by the harness on the implementation. *)
 From Coq Require Import List ZArith.
 Import ListNotations.
-From UV Require Import Py.Val Py.Str Py.StrFacts Ural.TrieDict Ural.Lru Proofs.TrieDictFacts Proofs.LruFacts.
+From UV Require Import Py.Val Py.Str Py.StrFacts Py.UrlLib Ural.SuffixTrie Ural.TrieDict Ural.Lru Ural.Canonicalize Ural.Normalize Ural.LruVariants Proofs.TrieDictFacts Proofs.LruFacts Proofs.VariantFacts.
 
 Definition stored (h : list (list str * val)) := map (fun kv => (lt_key (fst kv), snd kv)) h.
 
@@ -31,6 +31,27 @@ Theorem C11_len_iter : forall h : list (list str * val),
   len t = Z.of_nat (length (items t)) /\ NoDup (prefixes t).
 Proof. exact lrutrie_len. Qed.
 
+(* the variant tries tokenize with the stems of the canonicalized / normalized / fingerprinted url: two urls with the
+   same parsed canonical / normalized / fingerprinted form are the same key (whatever the options) *)
+Theorem C11_canonicalized_same_key : forall e t u v sa dp q sf,
+  canonicalize_split e u dp q sf = canonicalize_split e v dp q sf ->
+  canonicalized_lru_stems e t u sa dp q sf = canonicalized_lru_stems e t v sa dp q sf.
+Proof. exact canonicalized_same_key. Qed.
+Theorem C11_normalized_same_key : forall e t u v sa o,
+  normalize_split e o u = normalize_split e o v -> normalized_lru_stems e t u sa o = normalized_lru_stems e t v sa o.
+Proof. exact normalized_same_key. Qed.
+Theorem C11_fingerprinted_same_key : forall e t u v sa ss,
+  fingerprint_split e t ss u = fingerprint_split e t ss v -> fingerprinted_lru_stems e t u sa ss = fingerprinted_lru_stems e t v sa ss.
+Proof. exact fingerprinted_same_key. Qed.
+(* e.g. letter case never separates two keys of a FingerprintedLRUTrie *)
+Theorem C11_fingerprinted_key_case : forall e t u v sa ss,
+  lower u = lower v -> fingerprinted_lru_stems e t u sa ss = fingerprinted_lru_stems e t v sa ss.
+Proof. exact fingerprinted_key_case. Qed.
+
+Print Assumptions C11_canonicalized_same_key.
+Print Assumptions C11_normalized_same_key.
+Print Assumptions C11_fingerprinted_same_key.
+Print Assumptions C11_fingerprinted_key_case.
 Print Assumptions C11_match.
 Print Assumptions C11_longest.
 Print Assumptions C11_none.
